@@ -20,6 +20,7 @@ func runC09(c *core.Ctx) {
 	h.whoMayCompact("C09.2 who-may-compact")
 	c.Clause("C09.3 view lower bound stays valid (E4)")
 	h.viewLowerBound("C09.3 view-lower-bound")
+	h.leaderInitEstablishes("C09.3b view-lower-bound", "leader.removeLTE")
 	c.Clause("C09.4 fallback to snapshot installation when the entry is gone")
 	h.snapshotFallback("C09.4 snapshot-fallback")
 	h.requestsFromOwnLog("C09.4b requests-at-snapshot-boundary")
